@@ -33,6 +33,67 @@ Proof.
   - lia.
 Qed.
 
+(* the checked multiplication of fix b90d6d7: it answers exactly when the product fits *)
+Lemma mul_checked_spec n m :
+  0 < m ->
+  (mul_checked n m = Some (n * m) /\ in_int64 (n * m)) \/ (mul_checked n m = None /\ ~ in_int64 (n * m)).
+Proof.
+  intros Hm. unfold mul_checked.
+  assert (Q1 : Z.quot (two63 - 1) m = (two63 - 1) / m)
+    by (apply Z.quot_div_nonneg; unfold two63; lia).
+  assert (Q2 : Z.quot (- two63) m = - (two63 / m)).
+  { rewrite Z.quot_opp_l by lia. f_equal. apply Z.quot_div_nonneg; unfold two63; lia. }
+  rewrite Q1, Q2. unfold in_int64, two63 in *.
+  pose proof (Z.div_mod 9223372036854775807 m ltac:(lia)) as D1.
+  pose proof (Z.mod_pos_bound 9223372036854775807 m Hm) as B1.
+  pose proof (Z.div_mod 9223372036854775808 m ltac:(lia)) as D2.
+  pose proof (Z.mod_pos_bound 9223372036854775808 m Hm) as B2.
+  change (9223372036854775808 - 1) with 9223372036854775807.
+  set (q1 := 9223372036854775807 / m) in *. set (r1 := 9223372036854775807 mod m) in *.
+  set (q2 := 9223372036854775808 / m) in *. set (r2 := 9223372036854775808 mod m) in *.
+  destruct (q1 <? n) eqn:E1; cbn [orb].
+  - right. split; [reflexivity|]. apply Z.ltb_lt in E1. nia.
+  - apply Z.ltb_ge in E1. destruct (n <? - q2) eqn:E2.
+    + right. split; [reflexivity|]. apply Z.ltb_lt in E2. nia.
+    + left. split; [reflexivity|]. apply Z.ltb_ge in E2. nia.
+Qed.
+
+(* integer epoch with an explicit unit: the conversion either is exact or rejects, and it rejects
+   exactly the values whose microseconds do not fit int64 *)
+Lemma int_time_checked_spec p n f :
+  0 < mul_s p -> 0 < mul_ms p ->
+  match int_time_checked p n f with
+  | Some t => match f with
+              | EpochS | EpochMs | EpochUs => t = n * scale_of p f /\ in_int64 (n * scale_of p f) \/ f = EpochUs /\ t = n
+              | EpochNs => t = Z.quot n (div_ns p)
+              | _ => t = auto_int p n
+              end
+  | None => (f = EpochS \/ f = EpochMs) /\ ~ in_int64 (n * scale_of p f)
+  end.
+Proof.
+  intros H1 H2. destruct f; cbn [int_time_checked int_time_to_micros scale_of]; try reflexivity.
+  - destruct (mul_checked_spec n (mul_s p) H1) as [[-> Hr]|[-> Hr]]; [left; auto|split; [left; reflexivity|exact Hr]].
+  - destruct (mul_checked_spec n (mul_ms p) H2) as [[-> Hr]|[-> Hr]]; [left; auto|split; [right; reflexivity|exact Hr]].
+  - right. auto.
+Qed.
+
+Lemma arrow_ts_checked_spec p v u :
+  0 < mul_s p -> 0 < mul_ms p ->
+  match arrow_ts_checked p v u with
+  | Some t => match u with
+              | USecond => t = v * mul_s p /\ in_int64 (v * mul_s p)
+              | UMilli => t = v * mul_ms p /\ in_int64 (v * mul_ms p)
+              | UMicro => t = v
+              | UNano => t = Z.quot v (div_ns p)
+              end
+  | None => (u = USecond /\ ~ in_int64 (v * mul_s p)) \/ (u = UMilli /\ ~ in_int64 (v * mul_ms p))
+  end.
+Proof.
+  intros H1 H2. destruct u; cbn [arrow_ts_checked arrow_ts_to_micros]; try reflexivity.
+  - destruct (mul_checked_spec v (mul_s p) H1) as [[-> Hr]|[-> Hr]]; [auto|left; auto].
+  - destruct (mul_checked_spec v (mul_ms p) H2) as [[-> Hr]|[-> Hr]]; [auto|right; auto].
+Qed.
+
 (* parameters for which the magnitude-detected path cannot overflow *)
 Definition good_params (p : tparams) : bool :=
   (0 <? mul_s p) && (0 <? mul_ms p) && (0 <? div_ns p) &&
@@ -324,6 +385,88 @@ Section ImportCsv.
       + cbn [app Nat.sub]. f_equal. apply IH. cbn in H. lia.
   Qed.
 
+  Lemma parse_int_range s n : parse_int s = Some n -> in_int64 n.
+  Proof.
+    unfold parse_int.
+    match goal with |- context[let '(_, _) := ?X in _] => destruct X as [neg body] end.
+    destruct body as [|c r]; [discriminate|].
+    destruct (digits_val 0 (c :: r)) as [v|]; [|discriminate].
+    destruct (in_int64b (if neg then - v else v)) eqn:E; [|discriminate].
+    intros H; injection H as <-. apply in_int64b_spec. exact E.
+  Qed.
+
+  (* what a time cell becomes: an integer epoch (no '.') is converted EXACTLY - an explicit unit
+     whose microseconds would not fit int64 makes the cell an error instead of wrapping *)
+  Definition time_cell_ok (f : tfmt) (s : bytes) (t : Z) : Prop :=
+    let s' := trim s in
+    match (if has_dot s' then None else parse_int s') with
+    | Some n => t = exact_int_time p f n
+    | None => fl_epoch s' = Some t \/ (f = Auto /\ ttext s' = Some t)
+    end.
+
+  Lemma one_time_value_ok f s t :
+    good_params p = true ->
+    one_time_value fl_epoch ttext p f (trim s) = Some t -> time_cell_ok f s t.
+  Proof.
+    intros Hg H. unfold time_cell_ok. cbv zeta.
+    assert (Hm : 0 < mul_s p /\ 0 < mul_ms p).
+    { unfold good_params in Hg. rewrite !andb_true_iff, !Z.ltb_lt in Hg. tauto. }
+    destruct Hm as [Hm1 Hm2].
+    unfold one_time_value in H.
+    destruct (if has_dot (trim s) then None else parse_int (trim s)) as [n|] eqn:En.
+    - assert (Hr : in_int64 n).
+      { destruct (has_dot (trim s)); [discriminate|]. eapply parse_int_range; eauto. }
+      destruct f; try discriminate.
+      + pose proof (int_time_checked_spec p n EpochS Hm1 Hm2) as S. rewrite H in S.
+        destruct S as [[-> _]|[Hx _]]; [reflexivity|discriminate].
+      + pose proof (int_time_checked_spec p n EpochMs Hm1 Hm2) as S. rewrite H in S.
+        destruct S as [[-> _]|[Hx _]]; [reflexivity|discriminate].
+      + injection H as <-. reflexivity.
+      + injection H as <-. reflexivity.
+      + injection H as <-. apply auto_exact; assumption.
+    - destruct f; try discriminate; try (left; exact H).
+      destruct (fl_epoch (trim s)) as [m|]; [left; exact H|right; auto].
+  Qed.
+
+  (* an integer epoch whose microseconds overflow int64 under an explicit unit rejects the upload *)
+  Lemma one_time_value_overflow f s n :
+    0 < mul_s p -> 0 < mul_ms p ->
+    has_dot s = false -> parse_int s = Some n -> (f = EpochS \/ f = EpochMs) ->
+    ~ in_int64 (n * scale_of p f) ->
+    one_time_value fl_epoch ttext p f s = None.
+  Proof.
+    intros H1 H2 Hd Hp Hf Ho. unfold one_time_value. rewrite Hd, Hp.
+    pose proof (int_time_checked_spec p n f H1 H2) as S.
+    destruct Hf as [-> | ->]; destruct (int_time_checked p n _) as [t|]; try reflexivity;
+      destruct S as [[_ Hr]|[Hx _]]; try discriminate; contradiction.
+  Qed.
+
+  Lemma time_cells_spec f raw tm :
+    strings_to_time_micros fl_epoch ttext p f raw = Some tm ->
+    Forall2 (fun s t => one_time_value fl_epoch ttext p f (trim s) = Some t) raw tm.
+  Proof.
+    revert tm. induction raw as [|s r IH]; cbn [strings_to_time_micros]; intros tm H.
+    - injection H as <-. constructor.
+    - destruct (is_empty (trim s)); [discriminate|].
+      destruct (one_time_value fl_epoch ttext p f (trim s)) as [m|] eqn:E; [|discriminate].
+      destruct (strings_to_time_micros fl_epoch ttext p f r) as [ms|]; [|discriminate].
+      injection H as <-. constructor; [exact E|apply IH; reflexivity].
+  Qed.
+
+  Lemma time_cells_reject f raw s n :
+    0 < mul_s p -> 0 < mul_ms p ->
+    In s raw -> has_dot (trim s) = false -> parse_int (trim s) = Some n -> (f = EpochS \/ f = EpochMs) ->
+    ~ in_int64 (n * scale_of p f) ->
+    strings_to_time_micros fl_epoch ttext p f raw = None.
+  Proof.
+    intros H1 H2 Hin Hd Hp Hf Ho.
+    destruct (strings_to_time_micros fl_epoch ttext p f raw) as [tm|] eqn:E; [|reflexivity].
+    exfalso. pose proof (time_cells_spec f raw tm E) as F.
+    clear E. induction F as [|x t raw' tm' Hx _ IH]; [destruct Hin|].
+    destruct Hin as [->|Hin]; [|auto].
+    rewrite (one_time_value_overflow f (trim s) n H1 H2 Hd Hp Hf Ho) in Hx. discriminate.
+  Qed.
+
   (* the anatomy of every accepted import *)
   Lemma import_ok_shape q b :
     imp q = inr b ->
@@ -401,6 +544,22 @@ Section ImportCsv.
       intros Hu. unfold stored_cells. cbn [fst snd]. rewrite Hu. reflexivity.
     - intros Hall. apply map_ext_in. intros r Hr. apply fit_short.
       rewrite Forall_forall in Hall. apply Hall. exact Hr.
+  Qed.
+
+  (* the stored time of every data row of an accepted upload is the requested conversion of its
+     time cell - exact for every integer epoch, with no overflow guard *)
+  Lemma import_times_exact q b :
+    good_params p = true -> imp q = inr b ->
+    exists h0 rows ti,
+      skipn (q_skip q) (q_records q) = h0 :: rows /\
+      validate_header (header_of h0) (q_time_column q) = inr ti /\
+      Forall2 (time_cell_ok (q_fmt q))
+              (column_of (map (fit (length (header_of h0))) rows) ti) (b_time b).
+  Proof.
+    intros Hg H. destruct (import_ok_shape q b H) as (h0 & rows & ti & Esk & Hne & Hc & Hv & Ht & Hcols).
+    exists h0, rows, ti. split; [exact Esk|]. split; [exact Hv|]. cbn zeta in Ht.
+    pose proof (time_cells_spec _ _ _ Ht) as F.
+    clear Ht. induction F; [constructor|]. constructor; [apply one_time_value_ok; assumption|assumption].
   Qed.
 
   (* all-or-nothing: the effects of an import on the buffer *)
